@@ -126,5 +126,28 @@ mut('c13-email-early-return-removed', 'C13', PS, "if category in ['e', 'w']:", "
 mut('c13-mask-factor-dropped', 'C13', PS, "cur_prob *= self.count_alpha_masks[len(item)][item]", "cur_prob *= 1.0")
 mut('c13-history-dependence', 'C13', PS, "        omen_score = self.omen.parse(password)", "        omen_score = self.omen.parse(password); self.multiword_detector.train(password); self.multiword_detector.train(password)")
 mut('c13-category-w-for-email', 'C13', PS, "            category = 'e'", "            category = 'w'")
+# ---- C16
+M.append({'name': 'revert-F-C16', 'props': ['C16'], 'benign': False, 'desc': 'draw not scaled by the total again',
+          'edits': [{'file': G, 'find': "prob_target = random.random() * total_prob", 'repl': "prob_target = random.random()", 'nth': 0}]})
+mut('c16-weight-without-size', 'C16', G, "cur_prob += self.grammar[pt_type][index]['prob'] * len(self.grammar[pt_type][index]['values'])", "cur_prob += self.grammar[pt_type][index]['prob']")
+mut('c16-ge-to-gt', 'C16', G, "                if cur_prob >= prob_target:", "                if cur_prob > prob_target:", benign=True, desc='only differs when u x total equals a running sum exactly (either neighbour is accepted there); u x total never reaches the total for u < 1')
+mut('c16-no-reseed', 'C16', 'lib_guesser/honeyword_session.py', "            random.seed(self.random_seed)", "            pass")
+mut('c16-mask-choice-fixed', 'C16', G, "            mask = random.choice(self.grammar[pt_type][index]['values'])", "            mask = self.grammar[pt_type][index]['values'][0]")
+mut('c16-honey-limit-off', 'C16', 'lib_guesser/honeyword_session.py', "                    if limit <= 0:", "                    if limit < 0:")
+mut('c16-base-first-region-bias', 'C16', G, "            if cur_prob >= prob_target:\r\n                for replacement", "            if cur_prob >= prob_target * 0.9:\r\n                for replacement")
+# ---- C17 / C20
+mut('revert-F-C17', 'C17', 'lib_princeling/wordlist_generation.py', "limit = max_size - num_generated_guesses", "limit = None")
+mut('c17-while-le', 'C17', 'lib_princeling/wordlist_generation.py', "while max_size is None or num_generated_guesses < max_size:", "while max_size is None or num_generated_guesses <= max_size:")
+mut('c17-file-drops-newline', 'C17', G, "        self.output_file.write('\\n')", "        self.output_file.write('\\n') if guess else None", benign=True)
+mut('c17-file-encoding-errors', 'C17', G, "        self.output_file.write(guess)", "        self.output_file.write(guess.strip())")
+ER = 'edit_rules.py'
+mut('c20-year-as-one', 'C20', ER, "                total_length += 4", "                total_length += 1")
+mut('c20-min-exclusive', 'C20', ER, "        elif total_length >= min_length and total_length <= max_length:", "        elif total_length > min_length and total_length <= max_length:")
+mut('c20-terminal-whole-label', 'C20', ER, "            if x[0] not in terminal_set:", "            if x not in terminal_set and x[0] not in terminal_set[:1]:")
+mut('c20-copy-swapped', 'C20', ER, "        config['rule'] = config['copy']", "        pass")
+mut('c20-renormalise', 'C20', ER, "            return_grammar += line\n            return_grammar += '\\n'", "            return_grammar += line.split('\\t')[0] + '\\t' + str(float(prob))\n            return_grammar += '\\n'", benign=True, desc='str(float(text)) round-trips repr output: bytes unchanged')
+mut('c20-regex-any', 'C20', ER, "                stop = True\n                break", "                stop = len(grammar_regex) == 1\n                break")
+mut('c20-touches-other-file', 'C20', ER, "        print('Done editing, writing back results.')", "        print('Done editing, writing back results.'); open(grammar_file.replace('grammar.txt', 'raw_grammar.txt'), 'a').write('')", benign=False)
+mut('c16-total-by-builtin-sum', 'C16', G, "        prob_target = random.random() * total_prob", "        prob_target = random.random() * sum(item['prob'] for item in self.base)", desc='builtin sum() is compensated on 3.12 and can exceed the naive running sum by an ulp: a draw next to 1 selects nothing')
 json.dump(M, open(os.path.join(os.path.dirname(os.path.abspath(__file__)), 'mutants.json'), 'w'), indent=1)
 print(len(M), 'mutants')
